@@ -300,6 +300,54 @@ def check_tiny(run, case):
                 os.remove(f_)
         repo.drop_rules(name)
 
+def check_nested(run, case):
+    """A ruleset stored below a sub-folder of Rules/ (-r team/<name>), with a different ruleset of the same last name directly under Rules/: the command-line scorer
+    scores against the ruleset that was named (seeded C13s: a 'path traversal' hardening that keeps only the last component of the name)."""
+    import shutil
+    from .. import cli, trainer
+    A = ['zebra2020', 'walrus77', 'otter!9', 'zebra77', 'walrus2020']
+    B = ['summer15', 'winter#3', 'autumn15', 'spring#8', 'summer#3']
+    sdir = repo.scratch()
+    name, pathA = repo.new_rules_dir('c13n')
+    team = f'team_{os.getpid()}'
+    pathB = os.path.join(sdir, 'Rules', team, name)
+    os.makedirs(pathB)
+    tf = os.path.join(sdir, f'c13nested_{os.getpid()}.txt')
+    try:
+        for path, pws in ((pathA, A), (pathB, B)):
+            res = trainer.train(('\n'.join(pws) + '\n').encode('ascii'), path, encoding='ascii', coverage=0.6, ngram=3, alphabet_size=100, max_len=21)
+            if not res.ok:
+                run.inconc('training did not complete'); return
+        sc = load_scorer(pathB)
+        mine = {w: sc.parse(w)[2] for w in A + B}
+        open(tf, 'wb').write(('\n'.join(A + B) + '\n').encode('ascii'))
+        out, err, rc, to = cli.run_cli('password_scorer.py', ['-r', team + '/' + name, '-i', tf], stdin_mode='devnull', timeout=120, max_out=16 << 20)
+        run.ev('scorer_cli_runs'); run.ev('scorer_runs_on_a_nested_ruleset_name')
+        if to:
+            run.inconc('scorer did not end within the watchdog'); return
+        seen = 0
+        for line in out.decode('ascii', 'replace').split('\n'):
+            f = line.split('\t')
+            if len(f) != 4 or f[0] not in mine:
+                continue
+            try:
+                p_ = float(f[2])
+            except ValueError:
+                continue
+            seen += 1
+            if not (abs(mine[f[0]] - p_) <= 1e-9 * max(p_, mine[f[0]])):
+                run.violation(f'password_scorer.py -r <folder>/<name> (another ruleset called <name> lies directly under Rules/) reports {f[0]!r} with probability {f[2]}; '
+                              f'the ruleset that was named gives {mine[f[0]]!r}', case, observed=line[:160]); return
+        if seen < len(mine):
+            run.violation(f'password_scorer.py -r <folder>/<name>: {seen} of {len(mine)} inputs were scored', case, observed=err[-300:].decode('utf-8', 'replace')); return
+        run.ev('nested_name_records_compared', seen)
+        run.case(h(['nested', 1]))
+    finally:
+        if os.path.exists(tf):
+            os.remove(tf)
+        shutil.rmtree(os.path.join(sdir, 'Rules', team), ignore_errors=True)
+        repo.drop_rules(name)
+
 def run(run, rng):
     run.required_events = ['scored', 'nonzero_scores', 'emails_classified', 'websites_classified', 'history_independence_checked', 'limit_variants_checked']
     run.min_distinct = 20
@@ -307,6 +355,8 @@ def run(run, rng):
                        'probabilities compared with relative tolerance 1e-9', 'candidates containing letters outside the one-to-one case domain are the recorded finding F-C13']
     if run.shard[0] == 1 % run.shard[1]:
         run.guard({'tiny': True, 'hseed': rng.getrandbits(32)}, check_tiny, seconds=300)
+    if run.shard[0] == 2 % run.shard[1]:
+        run.guard({'nested': True}, check_nested, seconds=300)
     for i in range(N[run.tier]):
         case = trained.gen_train_case(rng, max_len_choices=(21,), coverages=(0.6, 0.3, 1.0))
         if case['encoding'] == 'utf-8' and i % 4 == 3:
@@ -315,6 +365,8 @@ def run(run, rng):
         run.guard(case, check_case, seconds=300)
 
 def replay(run, case):
+    if case['case'].get('nested'):
+        return check_nested(run, case['case'])
     if case['case'].get('tiny'):
         check_tiny(run, case['case'])
     else:
